@@ -45,3 +45,89 @@ func VerifC27Prepare() {
 	verif_assert("failed-relay-cu-rolled-back", epochData.UsedComputeUnits == used && sps.CuSum == cuSum && sps.LatestRelayCu == 0)
 	verif_reach("rolled-back")
 }
+
+// VerifC27RegisterRace: two first relays of a not-yet-registered project in one epoch.  Relay B saw
+// ConsumerNotRegisteredYet under the read lock; before B takes the write lock in registerNewConsumer, relay A may
+// (raced) or may not have registered the project, obtained its session and been accepted.  Whatever happened, B's
+// registration must end with both sessions charging the same per-project counter: accepted CU never exceeds the
+// project's max CU and the counter equals the sum of the project's session CU sums.
+func VerifC27RegisterRace() {
+	max := verif_nondet_u64("MaxComputeUnits")
+	cuA := verif_nondet_u64("relayA.cu")
+	cuB := verif_nondet_u64("relayB.cu")
+	raced := verif_nondet_bool("relayA.registeredFirst")
+	sameConsumer := verif_nondet_bool("sameConsumerAddress")
+	verif_assume(max < 1<<48 && cuA < 1<<48 && cuB < 1<<48)
+	psm := NewProviderSessionManager(&RPCProviderEndpoint{}, 5)
+	ctx := context.Background()
+	consumerB := "consumerB"
+	if sameConsumer {
+		consumerB = "consumerA"
+	}
+	var accepted uint64
+	var parentA *ProviderSessionsWithConsumerProject
+	var sessA *SingleProviderSession
+	if raced {
+		var err error
+		parentA, err = psm.registerNewConsumer("consumerA", "project", 10, max, 1)
+		verif_assert("first-registration-succeeds", err == nil && parentA != nil)
+		sessA, err = psm.GetSession(ctx, "consumerA", 10, 1, 1)
+		verif_assert("first-session-created", err == nil && sessA != nil)
+		if sessA.PrepareSessionForUsage(ctx, cuA, cuA, 0, 0) == nil {
+			accepted += cuA
+		}
+		verif_assert("first-relay-within-max", accepted <= max)
+	}
+	// relay B: passed IsActiveProject earlier (not registered then), now registers
+	parentB, err := psm.registerNewConsumer(consumerB, "project", 10, max, 1)
+	verif_assert("second-registration-succeeds", err == nil && parentB != nil)
+	if raced {
+		verif_assert("existing-project-entry-is-kept", parentB == parentA)
+	}
+	sessB, err := psm.GetSession(ctx, consumerB, 10, 2, 1)
+	verif_assert("second-session-created", err == nil && sessB != nil && sessB != sessA)
+	if sessB.PrepareSessionForUsage(ctx, cuB, cuB, 0, 0) == nil {
+		accepted += cuB
+	}
+	verif_assert("accepted-cu-of-project-within-max", accepted <= max)
+	sum := sessB.CuSum
+	if raced {
+		sum += sessA.CuSum
+	}
+	verif_assert("project-used-cu-is-sum-of-its-sessions", sessB.userSessionsParent.atomicReadUsedComputeUnits() == sum && sum == accepted)
+	cur, aerr := psm.IsActiveProject(10, "project")
+	verif_assert("sessions-charge-the-registered-project-entry", aerr == nil && cur == sessB.userSessionsParent && (!raced || cur == sessA.userSessionsParent))
+	verif_reach("end")
+}
+
+// VerifC27RelayNumber: replay protection.  A session that completed relay number n hands itself out only for a
+// relay number above n; a completed relay stores its number; the rejected request leaves the session unlocked and
+// unchanged.
+func VerifC27RelayNumber() {
+	stored := verif_nondet_u64("session.RelayNum")
+	req := verif_nondet_u64("request.relayNumber")
+	next := verif_nondet_u64("nextRequest.relayNumber")
+	verif_assume(stored < 1<<62)
+	psm := NewProviderSessionManager(&RPCProviderEndpoint{}, 5)
+	ctx := context.Background()
+	parent, err := psm.registerNewConsumer("consumerA", "project", 10, 1000, 1)
+	verif_assert("registered", err == nil)
+	sps := &SingleProviderSession{userSessionsParent: parent, SessionID: 1, PairingEpoch: 10, RelayNum: stored}
+	parent.Sessions[1] = sps
+
+	got, err := psm.GetSession(ctx, "consumerA", 10, 1, req)
+	if err != nil {
+		verif_assert("only-stale-relay-numbers-are-rejected", req <= stored)
+		verif_assert("rejected-request-leaves-session-free-and-unchanged", sps.lock.TryLock() && sps.RelayNum == stored && sps.CuSum == 0)
+		verif_reach("rejected")
+		return
+	}
+	verif_assert("accepted-relay-number-is-above-every-completed-one", got == sps && req > stored)
+	verif_assert("session-is-held-by-the-relay", !sps.lock.TryLock())
+	verif_assert("relay-done", psm.OnSessionDone(sps, req) == nil)
+	verif_assert("completed-relay-number-recorded", sps.RelayNum == req)
+	// the same or an older number can not be used again
+	_, err2 := psm.GetSession(ctx, "consumerA", 10, 1, next)
+	verif_assert("replayed-or-older-relay-number-rejected", (err2 == nil) == (next > req))
+	verif_reach("accepted")
+}
